@@ -201,10 +201,21 @@ theorem charged_multiTransfer (env : Env) (c : Call) (ctx ctx' : Ctx) (out : VMO
       charge c.gas out = u64 (u64 (beNat a1) * env.gas.fn.esdtNFTMultiTransfer) + payloadCost env toks :=
   (charge_multiTransferSender env c ctx hs).elim h
 
--- PARTIAL: the same-shard sender side of ESDTNFTTransfer also charges the payload component (for the merged entry it
--- marshals: a quirk shared by model and code) — its closed form is computed by the model and decided by exact-gas
--- correspondence; `toks` of `charged_multiTransfer` are the tokens returned by the item loop (their wire form:
--- `C08.multi_item` / `multi_payload`), the equation itself does not name them.
+/-- ESDTNFTTransfer, sender side with the destination on the executing shard: own cost + DataCopyPerByte × length of the
+    encoding of one token (the entry as merged into the destination, which the code marshals although no message leaves the
+    shard: a quirk, but still a whole-schedule charge of the documented shape) -/
+theorem charged_nftTransfer_sameShard (env : Env) (c : Call) (ctx ctx' : Ctx) (out : VMOutput)
+    (hs : present env.nshards env.self c.caller = true)
+    (hx : ∀ d, c.args[3]? = some d → env.self = shardOf env.nshards d)
+    (h : esdtNFTTransferSender env c ctx = .ok (out, ctx')) :
+    ∃ t' : Token, charge c.gas out = env.gas.fn.esdtNFTTransfer +
+      u64 ((encToken t').length * env.gas.base.dataCopyPerByte) :=
+  (charge_nftTransferSender_sameShard env c ctx hs hx).elim h
+
+-- `toks` of `charged_multiTransfer` are the tokens returned by the item loop (their wire form: `C08.multi_item` /
+-- `multi_payload`); the equation itself does not name them.  All 16 priced functions now have their charge theorem
+-- (ESDTNFTChangeCreateOwner is priced in the schedule but charged by no function: `gas_*` of C06 show the hand-over
+-- function returns GasRemaining 0 and forwards nothing).
 
 -- non-vacuity: a complete map of distinct primes is accepted; dropping one entry rejects it
 def sampleMap : GasMap :=
